@@ -89,6 +89,8 @@ def gen_plan(rng, tier, config, opts):
                 dt = rng.choice(types)     # decoded as another type (misdirected read)
                 if dt == 'HI':
                     dt = rng.choice(sorted(HI_TOWERS))
+            if rng.chance(0.3) and dt in ('ep', 'g1', 'ep2', 'g2', 'eb', 'ed', 'bn', 'bnraw', 'fp', 'fb', 'gt'):
+                lines.append('PRE %s %s' % (dt, rng.choice(['inf', 'inf', 'gen'])))     # what the destination object holds
             lines.append('DEC %d %s' % (s, dt))
             if rng.chance(0.15):
                 lines.append('DEC %d %s' % (s, dt))    # duplicate delivery
